@@ -2,6 +2,10 @@ module verifharness
 
 go 1.15
 
-require github.com/brocaar/lorawan v0.0.0
+require (
+	github.com/NickBall/go-aes-key-wrap v0.0.0-20170929221519-1c3aa3e4dfc5
+	github.com/brocaar/lorawan v0.0.0
+	github.com/jacobsa/crypto v0.0.0-20190317225127-9f44e2d11115
+)
 
 replace github.com/brocaar/lorawan => /repo
